@@ -144,6 +144,18 @@ def correspondence(ctx):
         out.setdefault("notes", []).extend(rc.get("notes", []) or [])
     except (ModuleNotFoundError, AttributeError):
         out.setdefault("notes", []).append("checks/c02.py has no reader_cut_cases yet")
+    # the Writer on a new connection after a cut produce response: C01's retry rule with the cut
+    # as a lost acknowledgement, every retry carrying the same records (checks/writer_common.py)
+    try:
+        wc = importlib.import_module("checks.writer_common").writer_cut_cases(ctx)
+        out["evaluations"] += wc.get("evaluations", 0)
+        out["distinct_nontrivial"] += wc.get("distinct_nontrivial", 0)
+        out["failures"] += wc.get("failures", [])
+        out["extra"]["writer_cut_evaluations"] = wc.get("evaluations", 0)
+        out["extra"]["writer_cut_hist"] = wc.get("hist", {})
+        out["samples"] += wc.get("samples", [])[:2]
+    except (ModuleNotFoundError, AttributeError):
+        out.setdefault("notes", []).append("checks/writer_common.py has no writer_cut_cases yet")
     # Client.ListOffsets / OffsetFetch through the real Transport with sub-responses cut at every
     # byte: a cut partition carries an error, never placeholder offsets (checks/c19.py listoffsets_cut_cases)
     try:
